@@ -65,6 +65,7 @@ const (
 
 type mwCfg struct {
 	pSpecial                 int // 1-in-N chance that states carry names the machine knows (Start, Ready, ...)
+	pParkTxStart             int // 1-in-N per transition: the tracer's TransitionStart is a scheduling point
 	minStates, maxStates     int
 	pRequire, pAdd, pRemove  int // 1-in-N per ordered pair (0 = never)
 	pAfter                   int
@@ -411,15 +412,16 @@ type mw struct {
 	eff  am.Schema // effective schema (m.Schema())
 	all  am.S      // m.StateNames()
 
-	txs     []*txRec
-	txById  map[string]*txRec
-	cur     *txRec // transition in progress (set by the processing goroutine)
-	calls   []*hCall
-	ops     []*opRec
-	hk      int // next handler call index
-	procGo  int64
-	handler string
-	errs    []string // ErrInternal drain
+	txStarts int
+	txs      []*txRec
+	txById   map[string]*txRec
+	cur      *txRec // transition in progress (set by the processing goroutine)
+	calls    []*hCall
+	ops      []*opRec
+	hk       int // next handler call index
+	procGo   int64
+	handler  string
+	errs     []string // ErrInternal drain
 
 	onTxInit     []func(tx *txRec, prev *txRec)
 	onTxStart    []func(tx *txRec)
@@ -482,6 +484,16 @@ func (t *mwTracer) TransitionStart(tx *am.Transition) {
 	for _, f := range w.onTxStart {
 		f(r)
 	}
+	// between the start of a transition and the moment its target is applied
+	// a machine without handlers offers no scheduling point of its own: the
+	// tracer callback is one (subscribers and readers may run here; what the
+	// processing goroutine holds at this point are read locks)
+	if w.c.pParkTxStart > 0 && w.txStarts%w.c.pParkTxStart == 0 {
+		w.txStarts++
+		w.s.Yield("h.txstart", "")
+		return
+	}
+	w.txStarts++
 }
 
 func (t *mwTracer) TransitionFinals(tx *am.Transition) {
